@@ -33,8 +33,8 @@ CASE_TIMEOUT = 60
 
 def budget(tier):
     if tier == "quick":
-        return {"cases": 6000, "workers": 8, "watchdog_s": 1200}
-    return {"cases": 300000, "workers": 16, "watchdog_s": 5400}
+        return {"cases": 40000, "workers": 8, "watchdog_s": 1800}
+    return {"cases": 1600000, "workers": 16, "watchdog_s": 3600, "budget_s": 600}
 
 
 def gen_case(rng, tier):
@@ -83,9 +83,16 @@ def run_case(case):
         # (c) structure of everything that was built (also the parts built before a refusal)
         for sub, subrel in b.nodes:
             c["trees_structurally_checked"] = c.get("trees_structurally_checked", 0) + 1
-            for kind, detail in structure.buried_sorts(subrel):
-                out["violations"].append({"kind": kind, "detail": f"{model.show(sub)}: {detail}"})
-                break
+            # the engine accepted this call: none of its operands may have carried a sort without a
+            # slice at its outermost query level (looking through slot-less Select wrappers)
+            if sub[0] in ("join", "chain", "mat"):
+                for operand in ([sub[1], sub[2]] if sub[0] != "mat" else [sub[1]]):
+                    orel = b.memo.get(repr(operand))
+                    if orel is not None and structure.effectively_sorted_without_slice(orel):
+                        out["violations"].append({"kind": f"sort_without_slice_buried_under_{sub[0]}", "detail": f"{model.show(sub)}: operand {short(orel, 200)} carries a sort and no slice, yet the call returned {short(subrel, 200)}"})
+            # sorts that an earlier (permitted) nesting had already put into a sub-query are only counted
+            if structure.buried_sorts(subrel):
+                c["sorts_already_nested_deeper_counted"] = c.get("sorts_already_nested_deeper_counted", 0) + 1
         outcome = "refused" if refused else "built"
         m = model.Model(case["leaves"], sql_slices=True, strict_fragile=True)
         has_mat = "m" in gen.op_signature(prog)
